@@ -7,6 +7,10 @@ Tie:      API level vs numpy.ma (mask exactly, data where unmasked, fill_value w
           construction, elementwise (unary/binary, mixed chunkings), reductions (axis tuples × keepdims ×
           split_every), filled/getmaskarray/getdata, masked_where/inside/outside/invalid/equal/greater…,
           cumsum/cumprod; integer cases are also compared with the Lean model run by the driver.
+          Section seq — sequences of 2–5 operations on ONE array (stacked masking functions, set_fill_value in place,
+          possibly twice, arithmetic, rechunk) mirrored step by step in numpy.ma; an alias taken before an in-place
+          step keeps its meaning; result / filled() / mask / sum / count compared, computed jointly and alone; the
+          NumPy source array must be unchanged (data, mask, fill_value) after computing.
 """
 from __future__ import annotations
 
@@ -375,7 +379,98 @@ def case_joint(ctx, inp):
     ctx.branch(f"joint×{len(inp['items'])}")
 
 
-CASES = {"joint": case_joint, "construct": case_construct, "elemwise": case_elemwise, "reduce": case_reduce, "fn": case_fn, "cum": case_cum}
+def _seq_step(mod, x, st, lazy, da=None, chunks=None):
+    """one step of a sequence, on numpy.ma (`lazy` False) or dask (`lazy` True); returns the new current array"""
+    f = st["fn"]
+    if f in ("masked_greater", "masked_less", "masked_equal", "masked_not_equal", "masked_greater_equal", "masked_less_equal"):
+        return getattr(mod, f)(x, st["v"])
+    if f in ("masked_inside", "masked_outside"):
+        return getattr(mod, f)(x, st["v"], st["w"])
+    if f == "masked_where":
+        cond = np.array(st["cond"], dtype=bool).reshape(x.shape)
+        return mod.masked_where(da.from_array(cond, chunks=chunks) if lazy else cond, x)
+    if f == "set_fill_value":
+        if not lazy:
+            x = x.copy() if isinstance(x, np.ma.MaskedArray) else x
+        mod.set_fill_value(x, st["v"])
+        return x
+    if f == "negative":
+        return -x
+    if f == "add_self":
+        return x + x
+    if f == "add_scalar":
+        return x + st["v"]
+    if f == "rechunk":
+        return x.rechunk(tuple(tuple(c) for c in st["chunks"])) if lazy else x
+    raise KeyError(f)
+
+
+def case_seq(ctx, inp):
+    """a SEQUENCE of masked operations on one array (masking functions stacked, set_fill_value applied in place —
+    possibly twice —, arithmetic, rechunk), mirrored step by step in numpy.ma; an alias taken before an in-place step
+    must keep its old meaning; the end result is compared as filled(), as a reduction and as data+mask."""
+    da = _da()
+    a = dec_ma(inp["a"])
+    chunks = tuple(tuple(c) for c in inp["chunks"])
+
+    src = dec_ma(inp["a"])          # the dask side gets its own source array: computing must not change it
+    src_fill = src.fill_value if isinstance(src, np.ma.MaskedArray) else None
+    src_copy = src.copy()
+
+    def impl():
+        x = da.from_array(src, chunks=chunks)
+        early = None
+        for i, st in enumerate(inp["steps"]):
+            if i == inp["alias_at"]:
+                early = x + 0
+            x = _seq_step(da.ma, x, st, True, da, x.chunks)
+        outs = [x, da.ma.filled(x), da.ma.getmaskarray(x), da.sum(x, axis=0), da.ma.count(x)]
+        if early is not None:
+            outs.append(early)
+        return [U.sync_compute(o) for o in outs], U.joint_vs_solo(outs)
+
+    def ref():
+        x = a
+        early = None
+        for i, st in enumerate(inp["steps"]):
+            if i == inp["alias_at"]:
+                early = x + 0
+            x = _seq_step(np.ma, x, st, False)
+        outs = [x, np.ma.filled(x), np.ma.getmaskarray(x), np.ma.sum(x, axis=0), np.ma.count(x)]
+        if early is not None:
+            outs.append(early)
+        return outs
+
+    got, exp = U.run_both(impl, ref)
+    if exp[0] == "raised":
+        ctx.branch("numpy-raises")
+        return
+    if got[0] == "raised":
+        ctx.fail(f"sequence: dask raised but numpy.ma returns a value: {got[1]}", observed=got[1])
+        return
+    vals, bad = got[1]
+    if ma_same(src, src_copy, True) or (src_fill is not None and src.fill_value != src_fill):
+        ctx.fail("sequence: computing the dask arrays changed the NumPy source array (data, mask or fill_value)",
+                 observed=[show(src), repr(getattr(src, "fill_value", None))], expected=[show(src_copy), repr(src_fill)])
+    names = ["result", "filled()", "getmaskarray", "sum(axis=0)", "count", "alias taken before an in-place step"]
+    has_fill = isinstance(exp[1][0], np.ma.MaskedArray)
+    for nm, g, e in zip(names, vals, exp[1]):
+        why = ma_same(g, e, True, 1.0, has_fill and nm == "result")
+        if why:
+            ctx.fail(f"sequence/{nm}: {why}", observed=show(g), expected=show(e))
+    if bad:
+        ctx.fail("sequence: outputs computed together differ from the outputs computed alone", observed=[names[i] for i in bad])
+    fns = [st["fn"] for st in inp["steps"]]
+    if fns.count("set_fill_value") > 1:
+        ctx.branch("set_fill_value twice")
+    if "set_fill_value" in fns and inp["alias_at"] is not None and inp["alias_at"] <= fns.index("set_fill_value"):
+        ctx.branch("alias before in-place step")
+    if sum(f.startswith("masked_") for f in fns) > 1:
+        ctx.branch("stacked masking")
+    ctx.branch(f"seq×{len(fns)}")
+
+
+CASES = {"seq": case_seq, "joint": case_joint, "construct": case_construct, "elemwise": case_elemwise, "reduce": case_reduce, "fn": case_fn, "cum": case_cum}
 
 
 # ---------------------------------------------------------------------------------------------
@@ -415,8 +510,32 @@ def _axis_choices(ndim):
     return out
 
 
+
+def gen_seq(ctx, n):
+    rng = ctx.rng
+    for _ in range(n):
+        shape = U.rand_shape(rng, 2, 5)
+        chunks = U.rand_chunks(rng, shape)
+        a = gen_ma(rng, shape, chunks, "int", ma=rng.random() < 0.85)
+        steps = []
+        for _ in range(rng.randint(2, 5)):
+            f = rng.choice(["masked_greater", "masked_less", "masked_equal", "masked_not_equal", "masked_inside", "masked_outside",
+                            "masked_where", "set_fill_value", "set_fill_value", "negative", "add_self", "add_scalar", "rechunk"])
+            st = {"fn": f, "v": rng.randint(-3, 3), "w": rng.randint(-3, 3)}
+            if f == "masked_where":
+                st["cond"] = [rng.random() < 0.3 for _ in range(U.prod_shape(shape))]
+            if f == "set_fill_value":
+                st["v"] = rng.choice([0, 3, -9, 77])
+            if f == "rechunk":
+                st["chunks"] = [list(c) for c in U.rand_chunks(rng, shape)]
+            steps.append(st)
+        yield "seq", {"a": a, "chunks": [list(c) for c in chunks], "steps": steps,
+                      "alias_at": rng.choice([None, 0, rng.randrange(len(steps))])}
+
+
 def generate(ctx):
     rng = ctx.rng
+    yield from gen_seq(ctx, ctx.n(150, 1800))
     for _ in range(ctx.n(60, 600)):
         shape = U.rand_shape(rng, 3, 4)
         chunks = U.rand_chunks(rng, shape)
